@@ -185,6 +185,18 @@ def ldlStep (cmd : String) : P (List String) := do
     else
       -- after a zero pivot the columns not yet reached hold the symbolic counts over unwritten storage: only D[0..k] is defined
       pure (head ++ [s!"ret {ret}", s!"dd {dStr}"])
+  | "csc.permute" =>
+    -- storage level: C = A(p,p) as the three arrays plus the slot map returned by permute_sparse_symmetric_matrix
+    let n ← nat
+    let pa ← natArray n
+    let _r ← nat
+    let _c ← nat
+    let ent0 ← dotsOpt n n
+    let ent : Array (Option QQ) := Array.ofFn (n := n * n) fun t => if t.val / n ≤ t.val % n then ent0.getD t.val none else none
+    let A : Csc QQ := Csc.ofOpt n n ent
+    let pinv : Array Nat := (List.range n).foldl (fun (a : Array Nat) i => a.setIfInBounds (pa.getD i 0) i) (Array.replicate n 0)
+    let (C, map) := Csc.permuteSym A pinv
+    pure [s!"cscouter {natsStr C.outer}", s!"cscinner {natsStr C.inner}", s!"cscvals {qqsStr C.vals}", s!"cscmap {natsStr map}"]
   | "ord.amd" =>
     -- Eigen's AMD is not modelled: only "returns a permutation whose inverse table and perm/permt are consistent"
     pure ["isperm 1 inv 1 roundtrip 1"]
